@@ -258,7 +258,64 @@ fn one_solution(pred_addr: ContentAddress, contract: ContentAddress, muts: Vec<M
     Solution { predicate_to_solve: PredicateAddress { contract, predicate: pred_addr }, predicate_data: vec![], state_mutations: muts }
 }
 
+/// Malformed encodings: an edge to a node that does not exist (exactly one past the last node, two past, u16::MAX), an edge_start beyond
+/// the edge list, decreasing edge_starts - with and without a post-state-reading program on the affected node: always rejected, never a panic.
+fn malformed(ctx: &Ctx) {
+    for n in 1..=3usize {
+        for shape in 0..(1usize << (n * (n - 1) / 2)) {
+            // forward edges only (acyclic base graph)
+            let mut children: Vec<Vec<u16>> = vec![vec![]; n];
+            let mut bit = 0;
+            for a in 0..n {
+                for b in a + 1..n {
+                    if shape >> bit & 1 == 1 {
+                        children[a].push(b as u16);
+                    }
+                    bit += 1;
+                }
+            }
+            for victim in 0..n {
+                for (bi, bad) in [n as u16, n as u16 + 1, u16::MAX, 0x8000].into_iter().enumerate() {
+                    for reader in [false, true] {
+                        let mut ch = children.clone();
+                        ch[victim].push(bad);
+                        let pred = encode(&ch, false);
+                        let mut progs = BTreeMap::new();
+                        for i in 0..n {
+                            let mut ops = if reader && i == victim { post_read(&[7], 1, 4, 0, None) } else { vec![] };
+                            ops.push(push(1));
+                            progs.insert(ca(i as u8 + 1), bytes(ops));
+                        }
+                        let mut preds = BTreeMap::new();
+                        preds.insert(ca(0xA0), pred.clone());
+                        let case = Case { pre: PreState::default(), set: SolutionSet { solutions: vec![one_solution(ca(0xA0), ca(0xC0), vec![])] }, preds, progs };
+                        run_case(ctx, &format!("malformed/edge/{n}/{shape}/{victim}/{bi}/{}", reader as u8), "a graph with an edge to a missing node is rejected with an error, never partially evaluated and never a panic",
+                            &case, || format!("children {:?} (node {victim} has an edge to missing node {bad}), post-state reader on it: {reader}", ch));
+                    }
+                }
+            }
+            // edge_start out of range / decreasing
+            for victim in 0..n {
+                for (si, start) in [children.iter().map(|c| c.len()).sum::<usize>() as u16 + 1, u16::MAX - 1, 0x7fff].into_iter().enumerate() {
+                    let mut pred = encode(&children, true);
+                    pred.nodes[victim].edge_start = start;
+                    let mut progs = BTreeMap::new();
+                    for i in 0..n {
+                        progs.insert(ca(i as u8 + 1), bytes(vec![push(1)]));
+                    }
+                    let mut preds = BTreeMap::new();
+                    preds.insert(ca(0xA0), pred.clone());
+                    let case = Case { pre: PreState::default(), set: SolutionSet { solutions: vec![one_solution(ca(0xA0), ca(0xC0), vec![])] }, preds, progs };
+                    run_case(ctx, &format!("malformed/start/{n}/{shape}/{victim}/{si}"), "a graph whose edge ranges are malformed is rejected with an error (or is a well-formed encoding of another graph), never a panic",
+                        &case, || format!("edge_starts {:?} edges {:?}", pred.nodes.iter().map(|x| x.edge_start).collect::<Vec<_>>(), pred.edges));
+                }
+            }
+        }
+    }
+}
+
 pub fn run(ctx: &Ctx) {
+    malformed(ctx);
     graphs(ctx);
     overlay(ctx);
     cross_solution(ctx);
